@@ -55,7 +55,17 @@ def classify(run, bad):
     if ev == "stalled":
         return "loop-stalled:after-handler-%s" % last_kind
     if ev == "hung":
-        return "hung:" + re.sub(r"\W+", "-", bad.get("what", ""))
+        key = "hung:" + re.sub(r"\W+", "-", bad.get("what", ""))
+        if bad.get("what") == "a call never returned":
+            # name the calls that were still open: "op/how/fault" of every call without a return
+            opened = {}
+            for r in run:
+                if r.get("ev") == "call" and r.get("thread") != "rl":
+                    opened[r["thread"]] = "/".join(str(r.get(k)) for k in ("op", "how", "fault") if r.get(k))
+                elif r.get("ev") == "ret":
+                    opened.pop(r.get("thread"), None)
+            key += ":open=" + "+".join(sorted(opened.values()))
+        return key
     idx = run.index(bad) if bad in run else len(run)
     before = run[:idx]
     if ev == "teardown":
@@ -236,6 +246,7 @@ def run(ctx):
                 plan2["faults"].append(faults[n - len(scheds)])
                 kinds.append("faults")
         plan2["stress"] = sum(1 for n in ns if n >= len(scheds) + len(faults)) and 40
+        plan2["ns"] = [n for n in ns if n < len(scheds)] + [n for n in ns if len(scheds) <= n < len(scheds) + len(faults)]
         recs2, _, _ = harness(ctx, plan2, "replay.ndjson", False)
         rej2, _, st2 = ctx.validate_runs("ConnCloseHist_Trace", recs2, max_rejects=len(rejected) + 12)
         tstates += st2
